@@ -26,7 +26,8 @@ RULE = ("random histories (quick <= 25, thorough <= 60 ops) over hierarchies of 
         "re-registration of a HookFunction object), removals through the owner, through `with`, through another class "
         "and repeated; class and instance accesses interleaved everywhere (they create the per-subclass Hook objects); "
         "implementations are data: constant / None / read the hook on a fresh instance of another class (per-object "
-        "re-entrancy), cooperating wrapper x -> 10x+k with or without default, declining wrapper. A case is one "
+        "re-entrancy), cooperating wrapper x -> 10x+k with or without default, declining wrapper (at most 4 wrappers per "
+        "history when wrappers without default may occur, else at most 6). A case is one "
         "history; non-trivial = at least two live registrations are visible in some observed chain; distinct by the "
         "canonical op list.")
 ASSUMPTIONS = [
@@ -438,9 +439,10 @@ class Real:
                     probs.append((key, f"reading K{c}().h: registration {n} (owner K{self.meta[n]['cls']}) was "
                                   f"invoked on an instance of K{inst_cls[i]} whose chain is {chain}"))
                     break
+        self.last_protocol_ok = all(o["ok"] for o in objs)
         if probs:
             return probs
-        if not all(o["ok"] for o in objs):
+        if not self.last_protocol_ok:
             return probs          # excluded point: only value and scope are demanded
         # every object in creation order: wrappers entered exactly once, in order; each receives the value of the rest
         # of the chain of that object's class; plain implementations consulted in order up to the first result
@@ -508,6 +510,9 @@ def run_history(ops, with_oracle=True, sweep=True):
             stats["maxchain"] = max(stats["maxchain"], len(real.expected_chain(op[1])))
             for key, what in real.check_read(op[1], v, tr):
                 problems.append((i, key, what))
+            stats["reads"] = stats.get("reads", 0) + 1
+            if not getattr(real, "last_protocol_ok", True):
+                stats["outside"] = stats.get("outside", 0) + 1
     if with_oracle and sweep:
         # final sweep: the order for EVERY class, whatever was touched before
         for c in list(real.order):
@@ -756,7 +761,7 @@ def canon(ops):
 
 
 def run(ctx):
-    n_hist = ctx.budget(600, 20000)
+    n_hist = ctx.budget(1200, 20000)
     max_ops = 25 if ctx.tier == "quick" else 60
     histories = [(list(h), "corpus") for h in CORPUS]
     for k in range(n_hist):
@@ -773,6 +778,7 @@ def run(ctx):
         for name in res["stats"]["ops"]:
             ctx.count("op:" + name)
         ctx.count("chain-length:%d" % min(res["stats"]["maxchain"], 8))
+        ctx.count("read:wrapper-answers-None(outside-protocol)", res["stats"].get("outside", 0))
         if res["stats"].get("runaway"):
             ctx.count("read:aborted-by-harness")
         for (_, line, ans, _, _) in res["rows"]:
